@@ -319,7 +319,7 @@ func TestC07(t *testing.T) {
 			}
 			if len(ds) > 0 {
 				n := ds[rapid.IntRange(0, len(ds)-1).Draw(rt, "dirNode")]
-				n.Node.Before = append(n.Node.Before, fmt.Sprintf("//line zz_%s:%d", n.File.Name, rapid.SampledFrom([]int{1, 1, 7, 100001}).Draw(rt, "dirLine")))
+				n.Node.Before = append(n.Node.Before, fmt.Sprintf("//line zz_%s:%d:1", n.File.Name, rapid.SampledFrom([]int{1, 1, 7, 100001}).Draw(rt, "dirLine")))
 				dirNode, dirFile = n.Node, n.File
 				p.Render()
 			}
